@@ -104,7 +104,7 @@ fn feed_key_importers(sink: &mut Sink, input: &[u8]) {
 
 /// a verification run over a link directory seeded with hostile files
 fn hostile_dir_case(sink: &mut Sink, r: &mut Rng, pool: &[KeyInfo]) {
-    let mut g = e2e::Gen { r, pool, insp_counter: 0, force_delegate: false, multi_party: false };
+    let mut g = e2e::Gen { r, pool, insp_counter: 0, force_delegate: false, multi_party: false, co_delegate: false };
     let mut s = g.valid(1, false);
     // hostile files next to (or instead of) the real evidence
     let step_names: Vec<String> = match &s.block.meta {
